@@ -7,12 +7,14 @@ CONSTANTS
   GenBias = FALSE
   FixRenew = TRUE
   PlanIdx = {"p1", "p2"}
-  Buyers = {"c", "b"}
   Durs = {1, 2, 12}
   WithRelay = FALSE
+  Consumers = {"c1", "c2"}
+  ThirdParty = {"b"}
+  WithDrain = TRUE
   PriceVar = {0, 1}
 INIT TInit
 NEXT TNext
 POSTCONDITION Post
 CHECK_DEADLOCK FALSE
-INVARIANTS SubnMatchesOwed CuInRange ProjectsFollow TimerArmed NoOtherPanic FailedTxNoEffect ExactCharge MonthResets
+INVARIANTS SubnMatchesOwed FutRecorded CuInRange ProjectsFollow TimerArmed NoOtherPanic FailedTxNoEffect ExactCharge MonthResets
